@@ -275,8 +275,13 @@ func (codecHTTPBody) Unmarshal(data []byte, v interface{}) error {
 func (codecHTTPBody) Name() string { return "body" }
 
 func (codecHTTPBody) ReadNext(b []byte, r io.Reader, limit int) ([]byte, int, error) {
-	var total int
+	// Bytes carried over from the previous chunk count too.
+	total := len(b)
 	for {
+		if total >= limit {
+			// The rest, and an io.EOF read with it, is for the next call.
+			return b, limit, nil
+		}
 		if len(b) == cap(b) {
 			// Add more capacity (let append pick how much).
 			b = append(b, 0)[:len(b)]
@@ -284,10 +289,13 @@ func (codecHTTPBody) ReadNext(b []byte, r io.Reader, limit int) ([]byte, int, er
 		n, err := r.Read(b[len(b):cap(b)])
 		b = b[:len(b)+n]
 		total += int(n)
-		if total > limit {
-			total = limit
+		if err == io.EOF && total > limit {
+			continue // the next call reads the io.EOF again
 		}
-		if err != nil || total == limit {
+		if err != nil {
+			if total > limit {
+				total = limit
+			}
 			return b, total, err
 		}
 	}
